@@ -235,8 +235,10 @@ func (s *Sim) Match(tu Tuple) (*Exch, int) {
 		}
 		t0ok := !e.CTx.IsZero() && near(tu.T0, e.CTx, tol)
 		if e.CTx.IsZero() {
-			// software fallback: a clock reading taken right after the send
-			t0ok = !tu.T0.Before(e.sendLower()) && tu.T0.Sub(e.sendLower()) <= slack
+			// software fallback: some clock reading of the client's own between its
+			// pre-send reading and the arrival of the reply (how good it is shows in
+			// the offset bound, which is judged separately)
+			t0ok = !tu.T0.Before(e.sendLower().Add(-tol)) && len(e.CRx) > 0 && !tu.T0.After(e.CRx[len(e.CRx)-1])
 		}
 		if !t0ok {
 			continue
